@@ -1336,6 +1336,95 @@ def register_constructors(reg):
     reg.trust("class objects in Constructible.__init_subclass__", "classes are heap models: __dict__/__mro__/inherited attributes as in Python; issubclass(sc, Constructible) answers the model's flag; super(cls, cls) is the first base; cls._resolveSpecifiers(()) (used only to infer types of dynamic properties) returns one opaque value per default")
 
 
+def register_prepare(reg):
+    """OrientedPoint2D._prepareSpecifiers (2-D mode): `with heading X` is rewritten to `facing X`; everything else is kept."""
+    T = f"{OT}:OrientedPoint2D._prepareSpecifiers"
+    name = "object_types.OrientedPoint2D._prepareSpecifiers"
+
+    def mk(nm, prios, val):
+        o = PObj(repo_class(f"{SP}:Specifier"), tag=nm)
+        o.fields.update(name=nm, priorities=PDict(list(prios.items())), value=val, requiredProperties=())
+        return o
+
+    def setup(I, env):
+        eng = I.eng
+        heading = absval("H", "float")
+        pool = [
+            mk("With(heading)", {"heading": 1}, PDict([("heading", heading)])),
+            mk("At", {"position": 1}, PDict([("position", absval("V", "Vector"))])),
+            mk("With(heading)", {"heading": 1, "extra": 1}, PDict([("heading", heading), ("extra", 0)])),  # same name, other properties: kept
+            mk("With(width)", {"width": 1}, PDict([("width", 2)])),
+        ]
+        chosen = [sp for k, sp in enumerate(pool) if eng.choose(2, f"specifier {k} present?") == 1]
+        if len(chosen) > 1 and eng.choose(2, "reversed order?") == 1:
+            chosen.reverse()
+        env.vars["cls"] = repo_class(f"{OT}:OrientedPoint2D")
+        env.vars["specifiers"] = tuple(chosen)
+        env.vars["_g"] = dict(chosen=chosen, pool=pool, heading=heading)
+        eng.input_syms.append(("case", C.Const(None), [pool.index(c) for c in chosen]))
+
+    def post(I, env, outcome):
+        eng = I.eng
+        g = env.vars["_g"]
+        ok = outcome[0] == "return" and isinstance(outcome[1], PList) and len(outcome[1].items) == len(g["chosen"])
+        eng.check(f"{name}#ensures.one_specifier_out_per_specifier_in", ok, detail=repr(outcome))
+        if not ok:
+            return
+        for a, b in zip(g["chosen"], outcome[1].items):
+            if a is g["pool"][0]:
+                pr = b.fields.get("priorities") if isinstance(b, PObj) else None
+                good = isinstance(pr, PDict) and dict(zip(pr.keys, pr.vals)) == {"yaw": 1, "pitch": 1, "roll": 1} and b.fields.get("name") == "Facing" and "heading" not in pr.keys
+                eng.check(f"{name}#ensures.with_heading_becomes_facing", good)
+                eng.check(f"{name}#ensures.facing_depends_on_parentOrientation", isinstance(b, PObj) and set(b.fields.get("requiredProperties", ())) == {"parentOrientation"})
+            else:
+                eng.check(f"{name}#ensures.other_specifiers_kept_in_place", a is b)
+
+    reg.add(
+        C.Contract(
+            T,
+            params=dict(cls=C.Const(None), specifiers=C.Const(None)),
+            setup=setup,
+            post=post,
+            inline_all=True,
+            bounded=True,
+            note="bounded: any sub-list (either order) of {with heading, at, a With(heading)-named specifier with another property set, with width}; coercion stubs of the reference-table contracts",
+            replay=replay_prepare,
+            properties=("C06",),
+        ),
+        key=f"{T}[2D rewriting]",
+    )
+
+
+def replay_prepare(inputs, clause):
+    import scenic.syntax.veneer as v
+    from scenic.core.object_types import OrientedPoint2D
+    from scenic.core.specifiers import Specifier
+    from scenic.core.vectors import Vector
+    from scenic.syntax.translator import CompileOptions
+
+    v.activate(CompileOptions(mode2D=True))
+    try:
+        pool = [v.With("heading", 0.5), v.At(Vector(1, 2, 0)), Specifier("With(heading)", {"heading": 1, "extra": 1}, {"heading": 0.5, "extra": 0}), v.With("width", 2)]
+        case = inputs["case"]
+        if isinstance(case, str):
+            import ast as _ast
+
+            case = _ast.literal_eval(case)
+        chosen = [pool[i] for i in case]
+        out = OrientedPoint2D._prepareSpecifiers(chosen)
+        if len(out) != len(chosen):
+            return f"_prepareSpecifiers returned {len(out)} specifiers for {len(chosen)}"
+        for a, b in zip(chosen, out):
+            if a is pool[0]:
+                if dict(b.priorities) != {"yaw": 1, "pitch": 1, "roll": 1} or set(b.requiredProperties) != {"parentOrientation"}:
+                    return f"`with heading` rewritten to {b} (priorities {b.priorities}, dependencies {b.requiredProperties})"
+            elif a is not b:
+                return f"specifier {a} was replaced by {b}"
+    finally:
+        v.deactivate()
+    return None
+
+
 def replay_specifier_init(inputs, clause):
     from scenic.core.errors import SpecifierError
     from scenic.core.lazy_eval import DelayedArgument, LazilyEvaluable
@@ -1809,5 +1898,6 @@ def register(reg):
     register_dependencies(reg)
     register_relational(reg)
     register_constructors(reg)
+    register_prepare(reg)
     register_dfs(reg)
     register_reference(reg)
